@@ -69,6 +69,7 @@ fn gen_cfg(t: &mut Tape) -> Cfg {
         cost_models: [7u8, 0, 4, 3, 1][t.weighted(&[4, 2, 1, 1, 1])],
         slot: [101_674_141u64, 0, u64::MAX][t.weighted(&[5, 1, 1])],
         time: [1_757_611_408_000u128, 0, u128::MAX >> 1][t.weighted(&[5, 1, 1])],
+        by_literal: false,
     }
 }
 
